@@ -15,4 +15,10 @@ def f6b : Bool := true
 /-- F9: patternWithoutTrailingGlob strips one trailing glob only -/
 def f9 : Bool := true
 
+/-- F4: dedupePaths compares with every kept element -/
+def f4 : Bool := true
+
+/-- F18: FollowLinks clamps requested paths at the root -/
+def f18 : Bool := true
+
 end Fsm.Fix
